@@ -407,6 +407,12 @@ func runFaults(c *core.Ctx, w *core.World, name string, argv []string, randomHis
 	}
 	if prop == "C15" {
 		for k := 1; k <= N; k++ {
+			if N > 160 && k > 50 && k <= N-50 && (k-50)%((N-100)/60+1) != 0 {
+				// a command with hundreds of modifications (a large object streamed in chunks): the first and last 50
+				// positions and about 60 evenly spaced ones in between
+				c.Count("C15.crash-points-sampled-out")
+				continue
+			}
 			var o opLine
 			for _, x := range ops {
 				if x.M == k {
@@ -551,6 +557,25 @@ func runFaults(c *core.Ctx, w *core.World, name string, argv []string, randomHis
 		switch o.Op {
 		case "open", "create", "openw", "readfile", "createtemp":
 			errnos = append(errnos, "EACCES")
+		}
+		// one more errno per operation, of the kind a caller may single out and "handle": a rename across file systems,
+		// an interrupted read, too many open files, a read-only or full-quota file system. ENOENT and EEXIST are NOT
+		// faults: they are information a program is right to act on ("no branch file yet", "directory is already there")
+		switch o.Op {
+		case "rename", "link":
+			errnos = append(errnos, "EXDEV", "EBUSY")
+		case "open", "readfile", "readdir":
+			errnos = append(errnos, []string{"EMFILE", "EINTR"}[k%2])
+		case "create", "openw", "createtemp":
+			errnos = append(errnos, []string{"EROFS", "EMFILE"}[k%2])
+		case "write":
+			errnos = append(errnos, []string{"EDQUOT", "EINTR", "EAGAIN"}[k%3])
+		case "read":
+			errnos = append(errnos, []string{"EINTR", "EAGAIN"}[k%2])
+		case "mkdir", "mkdirall":
+			errnos = append(errnos, "EROFS")
+		case "remove", "removeall":
+			errnos = append(errnos, []string{"EBUSY", "EPERM"}[k%2])
 		}
 		for _, e := range errnos {
 			faults = append(faults, fl{fmt.Sprintf("e:%d:%s", k, e), o})
@@ -708,6 +733,13 @@ func runFaultProp(c *core.Ctx) {
 	if c.Prop == "C16" {
 		nRand = c.Pick(100, 1200)
 		corpus = append(corpus, readOnlyScenarios()...)
+	} else {
+		// C15 only: objects of 16 MiB and more (where a streaming / large-object write path would begin)
+		corpus = append(corpus, scenario{"add-object-of-16MiB", func(k *Walker) {
+			k.Init()
+			commitBase(k)
+			k.W.EditRand("huge.bin", "c15-huge", 16<<20+7)
+		}, fixed("add", "huge.bin")})
 	}
 	total := len(corpus) + nRand
 	c.RunHistories(total, func() []core.Monitor { return nil }, func(w *core.World) {
